@@ -28,8 +28,13 @@ func init() {
 	verifProps["C20-e2e"] = vh.Prop{List: func(tier string) []vh.Scenario {
 		var out []vh.Scenario
 		for _, sc := range c12Scens(tier) {
-			ends := sc.Fault == "none" && (sc.Stream == "ts-va" || sc.Stream == "fmp4-va" || sc.Stream == "fmp4-v+a" || sc.Stream == "ts-big")
+			ends := sc.Fault == "none" && (sc.Stream == "ts-va" || sc.Stream == "fmp4-va" || sc.Stream == "fmp4-v+a" || sc.Stream == "ts-big" || sc.Stream == "fmp4-va-sparse")
 			held := sc.Fault == "stall" && sc.Stream == "ll" && sc.Policy == 0 // Low-Latency: a request the server holds when Close arrives
+			if sc.Stream == "fmp4-va-sparse" && sc.Fault == "none" && sc.Closers == 0 && sc.CloseInCB == 0 {
+				// a segment whose audio track fragment has no samples: the pipeline moves on to the next segment and reaches the end
+				out = append(out, vh.Scenario{Name: sc.name(), Weight: 30})
+				continue
+			}
 			if sc.LagTracks {
 				// Low-Latency: the processor more than one part behind the downloader - each part reaches it once, in download order
 				out = append(out, vh.Scenario{Name: sc.name(), Weight: 30})
